@@ -4,6 +4,7 @@
    bdd_every_result, list_formula_is_empty, list_inhabited); the mapping emptiness procedure is judged by enumeration of
    values on the implementation (see DESIGN.md). *)
 From Beff Require Import Model.Subtype Model.ListSpec Proofs.C05 Proofs.SemOps Proofs.ListSoundTop Proofs.ListCompleteTop.
+From Beff Require Import Model.MappingEmpty Proofs.MappingSound.
 
 (* "two types are reported equivalent exactly when each is assignable to the other" *)
 Theorem C05_same_type_is_mutual_assignability :
@@ -145,6 +146,60 @@ Example C05_nonvacuous :
   sem_is_same no_struct ex_a ex_b = Ok false /\ sem_is_same no_struct ex_a ex_a = Ok true.
 Proof. repeat split; vm_compute; reflexivity. Qed.
 
+(* ---- objects.  One clause of the mapping component (Model/MappingEmpty.v check_mapping_empty = mapping.rs check_mapping_empty
+        without index signatures): a positive field list and negative field lists.  A record maps every key to a value; a key the
+        record does not have is mapped to the value of the absent-property type.  The positive is read exactly (an undeclared
+        key is absent), the negatives openly (only declared keys are constrained) - the two readings the engine itself uses.
+        For field types without structural components (null, booleans, numbers, strings, literals, unions, differences, optional):
+        the clause is reported empty exactly when every exact record of the positive is an open record of some negative, and a
+        "not empty" answer comes with a separating record.  (Nested objects need the same statement one level down: the abstract
+        version in Proofs/MappingSound.v, Section MapLevel, is parametric in the element level.) ---- *)
+Theorem C05_flat_object_clause_empty_iff_covered :
+  forall negs pos,
+    wf_fields pos -> bgood_fields pos -> Forall (fun n => NoDup (keys n) /\ bgood_fields n) negs ->
+    (check_mapping_empty bempty negs pos = Ok true ->
+       forall r : brecord, bexact pos r -> exists n, In n negs /\ bopen n r) /\
+    (check_mapping_empty bempty negs pos = Ok false ->
+       exists r : brecord, bexact pos r /\ forall n, In n negs -> not_open BV bvm n r).
+Proof.
+  intros negs pos Hw Hg Hn. split.
+  - apply flat_object_check_sound; assumption.
+  - apply flat_object_check_complete; [exact Hg|]. eapply Forall_impl; [|exact Hn]. intros a [_ H]. exact H.
+Qed.
+
+(* ---- the same for a conjunction of positive object atoms (an intersection of object types reaches the decider as several
+        positive atoms): `meet_fields` merges them key by key, reading a key an atom does not declare as unconstrained, and the merged
+        field list is read exactly.  `bpos_reading ps r`: r is an open record of every atom of ps and has no key that none of them
+        declares - the engine's own reading of such a conjunction (not TypeScript's intersection of exact types: the listed finding
+        intersection_of_object_types_in_assignability is about the difference).  With that reading the clause decider is exact. ---- *)
+Theorem C05_flat_object_conjunction_empty_iff_covered :
+  forall pos neg,
+    Forall bgood_atom pos -> Forall (fun n => NoDup (keys (ma_fields n)) /\ bgood_atom n) neg ->
+    (mapping_clause_is_empty bempty pos neg = Ok true ->
+       forall r : brecord, bpos_reading (map ma_fields pos) r -> exists n, In n neg /\ bopen (ma_fields n) r) /\
+    (mapping_clause_is_empty bempty pos neg = Ok false ->
+       exists r : brecord, bpos_reading (map ma_fields pos) r /\ forall n, In n neg -> not_open BV bvm (ma_fields n) r).
+Proof.
+  intros pos neg Hp Hn. split.
+  - apply flat_object_clause_sound; assumption.
+  - apply flat_object_clause_complete; [exact Hp|]. eapply Forall_impl; [|exact Hn]. intros a [_ H]. exact H.
+Qed.
+
+(* non-vacuity: {a: string, b?: number} against {a: string | number} (covered) and against {a: string, b: number} (b may be absent) *)
+Definition c05_str : semtype := mkSem (stag_code TgString) [].
+Definition c05_num : semtype := mkSem (stag_code TgNumber) [].
+Definition c05_strnum : semtype := mkSem (N.lor (stag_code TgString) (stag_code TgNumber)) [].
+Definition c05_optnum : semtype := mkSem (N.lor (stag_code TgNumber) (stag_code TgOptionalProp)) [].
+Example C05_flat_objects_nonvacuous :
+  check_mapping_empty bempty [[("a", c05_strnum)]] [("a", c05_str); ("b", c05_optnum)] = Ok true /\
+  check_mapping_empty bempty [[("a", c05_str); ("b", c05_num)]] [("a", c05_str); ("b", c05_optnum)] = Ok false /\
+  wf_fields [("a", c05_str); ("b", c05_optnum)] /\ bgood_fields [("a", c05_str); ("b", c05_optnum)].
+Proof.
+  split; [vm_compute; reflexivity|split; [vm_compute; reflexivity|split]].
+  - split; [repeat constructor|repeat constructor; cbn; intuition discriminate].
+  - intros k t [E|[E|[]]]; injection E as _ <-; (split; [reflexivity|split; [intros q []|reflexivity]]).
+Qed.
+
 Print Assumptions C05_same_type_is_mutual_assignability.
 Print Assumptions C05_same_type_answer.
 Print Assumptions C05_assignability_is_emptiness_of_difference.
@@ -155,3 +210,5 @@ Print Assumptions C05_list_types_assignable_implies_inclusion.
 Print Assumptions C05_list_only_types_assignable_implies_inclusion.
 Print Assumptions C05_list_only_types_not_assignable_has_a_separating_value.
 Print Assumptions C05_list_only_types_assignability_is_inclusion.
+Print Assumptions C05_flat_object_clause_empty_iff_covered.
+Print Assumptions C05_flat_object_conjunction_empty_iff_covered.
